@@ -53,12 +53,16 @@ def baseCfg (k : String) : Option Cfg :=
   -- MakeServers refuses (TLS and plain HTTP on one listener): after the directives, not reached by a validation
   | "mux" => some ⟨[⟨1, plain "A"⟩], 1, .startup⟩
   | "busy3" => some ⟨[⟨3, plain "A"⟩], 0, .none⟩
+  -- the site of A1 with QUIC enabled while the UDP half of its address is held by another process: `Listen` succeeds,
+  -- `ListenPacket` of the same server fails.  In the model one step of the listen loop stands for both calls of one
+  -- server and an address either half of which is taken is a `busy` address (port 3 stands for it)
+  | "udp1" => some ⟨[⟨3, plain "A"⟩], 0, .none⟩
   | "leak13" => some ⟨[⟨1, plain "A"⟩, ⟨3, plain "A"⟩], 1, .none⟩
   | "leak123" => some ⟨[⟨1, plain "B"⟩, ⟨2, plain "B"⟩, ⟨3, plain "B"⟩], 0, .none⟩
   | _ => none
 
 /-- kinds whose number of `on` directives can be chosen with the suffix `.h<N>`, N one decimal digit -/
-def hookable : List String := ["H1", "argE", "argL", "tlsM", "logE", "mux", "busy3", "leak13", "leak123"]
+def hookable : List String := ["H1", "argE", "argL", "tlsM", "logE", "mux", "busy3", "leak13", "leak123", "udp1"]
 
 def kindCfg (k : String) : Option Cfg :=
   match k.splitOn ".h" with
